@@ -10,6 +10,8 @@ import (
 )
 
 var internSites = []string{"intern.miss", "intern.locked", "intern.publish", "op.begin"}
+var encodeSites = []string{"struct.size", "map.size", "map.append", "slice.size", "slice.encode", "json.size", "json.encode", "other"}
+
 var allDecodeSites = []string{"map.entry", "map.key", "map.value", "struct.read", "struct.append", "slice.elem", "slice.append", "time.read", "json.map", "json.array", "json.kv", "slice.varint"}
 
 var vocabPool = []string{"", "a", "b", "ab", "abc", "abd", "abcd", "a\x00", "\x00", "\xff\xfe", "\x80", "prefix-common-1", "prefix-common-2", "prefix-common-", "prefix-common-12", "USD", "EUR", "GBP", "status:ok", "status:failed", "héllo", "日本語", "x"}
@@ -290,7 +292,7 @@ func GenC11(seed uint64, idx int) *Scenario {
 		}
 		sc.Tasks = append(sc.Tasks, ops)
 	}
-	sc.Sites = pickSites(&r, []string{"op.begin"}, append(append(append([]string(nil), buildSites...), allDecodeSites...), internSites...), []int{0, 30, 60, 100}[r.Intn(4)])
+	sc.Sites = pickSites(&r, []string{"op.begin"}, append(append(append(append([]string(nil), buildSites...), allDecodeSites...), internSites...), encodeSites...), []int{0, 30, 60, 100}[r.Intn(4)])
 	sc.Policy = pickPolicy(&r, nt)
 	return sc
 }
